@@ -43,6 +43,97 @@ def main():
                         if got != base:
                             mism.append(dict(entry=entry, npatch=npatch, W=W, got=str(got)[:100]))
                 yawx.sequential(1)
+    if which == "c05seq":
+        # one process, a sequence of measurements with differing binnings and worker counts on the same caches
+        # (real multiprocessing pools); prints the digest of the last measurement
+        import yaw
+        from checks import c05
+
+        scenario = json.loads(sys.argv[3])
+        root = runner.fresh_dir("seq")
+        cats = c05.make_caches(root, 2, seed)
+        edges = {"A": [0.1, 0.2, 0.3, 0.4], "B": [0.1, 0.25, 0.3, 0.4]}
+        last = None
+        for name, W in scenario:
+            yawx.sequential(W)
+            conf = yaw.Configuration.create(rmin=[0.3, 0.9], rmax=[1.1, 3.4], unit="deg", edges=edges[name])
+            last = c05.obs_corrfuncs(yaw.crosscorrelate(conf, cats["R"], cats["U"], ref_rand=cats["RR"], unk_rand=cats["U"]))
+        runner.cleanup_scratch()
+        print(json.dumps(dict(digest=last)))
+        return
+    if which == "c02":
+        # free-running real pipeline (Pool + Manager queue + writer process): stored multisets == sequential
+        import numpy as np
+        import pandas as pd
+        from yaw import AngularCoordinates, Catalog
+        from checks import c02
+
+        for n, cs, mode in ((6, 2, "ids"), (7, 3, "centres"), (5, None, "ids"), (3, 1, "centres")):
+            ra, dec, w, z, pid = c02.records(n)
+            cols = dict(ra=ra, dec=dec, w=w, z=z)
+            kw = dict(ra_name="ra", dec_name="dec", weight_name="w", redshift_name="z", chunksize=cs)
+            if mode == "ids":
+                cols["pid"] = pid
+                kw["patch_name"] = "pid"
+            else:
+                kw["patch_centers"] = AngularCoordinates(np.deg2rad(c02.CENTRES[: min(3, n)]))
+            rows, patch = c02.expected_records(dict(n=n, degrees=True, mode=mode), cols)
+            for W in (2, 3):
+                yawx.sequential(W)
+                runs += 1
+                d = runner.fresh_dir("conf2")
+                v = []
+                try:
+                    cat = Catalog.from_dataframe(d + "/cat", pd.DataFrame(cols), **kw)
+                    c02.compare_catalog(cat, rows, patch, "real", v)
+                except Exception as e:  # noqa: BLE001
+                    v.append(dict(signature=f"exception {type(e).__name__}: {e}"))
+                if v:
+                    mism.append(dict(n=n, chunksize=cs, mode=mode, W=W, got=v[0]["signature"]))
+    if which == "c09":
+        # the verdicts the model gives must be what the real pipeline does (with a watchdog against hangs)
+        import signal
+
+        import numpy as np
+        import pandas as pd
+        from yaw import Catalog
+
+        def attempt(df, path, **kw):
+            def alarm(*a):
+                raise TimeoutError("real pipeline hangs")
+            signal.signal(signal.SIGALRM, alarm)
+            signal.alarm(60)
+            try:
+                Catalog.from_dataframe(path, df, ra_name="ra", dec_name="dec", patch_name="pid", chunksize=2, **kw)
+                return "returned"
+            except TimeoutError:
+                return "hang"
+            except Exception as e:  # noqa: BLE001
+                return "raised"
+            finally:
+                signal.alarm(0)
+
+        good = pd.DataFrame(dict(ra=[1.0, 2, 3, 4, 5, 6], dec=[0.0] * 6, pid=[0, 1, 0, 1, 0, 1]))
+        for W in (2, 3):
+            yawx.sequential(W)
+            d = runner.fresh_dir("conf9")
+            bad = good.copy()
+            bad.loc[3, "ra"] = np.nan
+            expect = [("nan-middle", attempt(bad, d + "/a"), "raised"), ("valid", attempt(good, d + "/b"), "returned"),
+                      ("exists", attempt(good, d + "/b"), "raised"),
+                      ("exists-overwrite", attempt(good, d + "/b", overwrite=True), "returned")]
+            badid = good.copy()
+            badid.loc[5, "pid"] = -1
+            expect.append(("patch-id-last", attempt(badid, d + "/c"), "raised"))
+            for name, got, want in expect:
+                runs += 1
+                if got != want:
+                    mism.append(dict(case=name, W=W, got=got, want=want))
+            try:
+                Catalog(d + "/a")
+                mism.append(dict(case="failed creation opens", W=W))
+            except Exception:  # noqa: BLE001
+                pass
     runner.cleanup_scratch()
     print(json.dumps(dict(runs=runs, mismatches=mism)))
 
